@@ -34,6 +34,9 @@ var propC16 = &pProp{
 			}
 			for k := 0; k < p.optSets; k++ {
 				o := drawOpts(r, gp, 45, 12)
+				if r.chance(1, 4) {
+					o.UseReader = true // the input may be treated differently when it comes from a reader
+				}
 				o.UseReader = false
 				if r.chance(1, 3) {
 					o.Stats = false // the parser's own default Stats value is the clock
